@@ -7,7 +7,7 @@
 From Coq Require Import List Arith ZArith Bool Reals.
 From T4V Require Import Base.Scalar C07.Model C07.ProofsAlgebra C07.ProofsComb C07.ProofsMain
   C07.ProofsGeom C07.ProofsExample C07.ProofsDomain C07.ProofsRhp C07.ModelDevelop C07.ProofsDevelop
-  C07.ProofsErrors.
+  C07.ProofsErrors C07.LinkC03.
 Import ListNotations.
 Open Scope R_scope.
 
@@ -513,3 +513,21 @@ Print Assumptions C07_sort_count_error.
 Example C07_open_chain_never_ends :
   hex_vertices_abs (pair_in [(0, 2); (0, 4); (1, 3); (1, 5); (2, 4); (3, 5)]%nat) 0 = Err ELoop.
 Proof. vm_compute. reflexivity. Qed.
+
+(* ---------- link with C03 (macrobodies) ---------- *)
+
+(* C07's model of MacroBodies.rhp (under rhp_cell_surfaces and the
+   C07_rhp*_lattice_vectors theorems) IS C03's model of it (about which C03 proves
+   the RHP/HEX facets), at every Scalar — reals and binary64 alike: same
+   exceptions, same eight (P, [A; B; C; D], side) entries *)
+Theorem C07_rhp_is_C03_rhp_linked : forall (T : Type) (S : Scalar T) (p : list T),
+  res03 (rhp S p) = M3.rhp S p.
+Proof. exact @rhp_is_C03_rhp. Qed.
+Print Assumptions C07_rhp_is_C03_rhp_linked.
+
+(* the definition executed by tie:develophex is the develop_lattice_hex of
+   C07_hex_lattice_developed *)
+Theorem C07_develop_lattice_hex_is_tied : forall (dic : Z -> list rsurf) (ids : list Z) (cell : M6.lat_cell (T:=R)),
+  develop_lattice_hex_gen RS dic ids cell = develop_lattice_hex (extract_surfaces dic ids) cell.
+Proof. exact develop_lattice_hex_is_gen. Qed.
+Print Assumptions C07_develop_lattice_hex_is_tied.
